@@ -12,7 +12,7 @@
                             identifiers at a cut (ct_dom + ns_ok), well-formed buffered messages
                             (msg_typed + CoreCfg).
    Result: `prints_admitted_parsed` — for every parsed, accepted, closed program whose initial
-   configuration passes the decidable checks `rt_syn_ok` and `init_linear`, every Async run prints a
+   configuration passes the decidable checks `raw_ok` and `init_linear`, every Async run prints a
    label sequence that spec/Sax.v prints from the program's own SAX initial configuration. *)
 From stdpp Require Import gmap strings.
 Require Import Grits.Base Grits.ModeDefs Grits.Modes Grits.STypes Grits.Forms Grits.Subst Grits.TcDeps Grits.Expand
@@ -57,6 +57,7 @@ Ltac name_leaf :=
   match goal with
   | H : prov_name _ _ ?n, Hk : chan ?n = Some _ |- _ => by destruct (prov_name_in _ _ _ _ H Hk)
   | H : binder ?n, Hk : chan ?n = Some _ |- _ => by destruct (binder_in _ _ H Hk)
+  | H : pbinder ?n, Hk : chan ?n = Some _ |- _ => by (unfold pbinder in H; congruence)
   | H : client_ty _ _ _ _ ?n _, Hk : chan ?n = Some _ |- _ => by eapply (client_in _ _ _ _ _ _ H Hk)
   end.
 
@@ -228,12 +229,12 @@ End Runs.
 
 (* ------------------------------------------------------------------ accepted programs *)
 (* The premises: the program is accepted and closed (in_fragment: no assumed names); prog_syn_ok and
-   rt_syn_ok (the types and names are what the parser produces — computable; the first is a theorem
+   raw_ok (the types and names are what the parser produces — computable; the first is a theorem
    for parsed programs, ParseSynOk.parse_syn_ok); init_linear (decidable, InitLinear.init_linear_b:
    function bodies and initial bodies in the core fragment and affine, one provider per process, the
    initial configuration a forest). *)
 Theorem prints_admitted_tc p p' :
-  typecheck p = Accept p' -> in_fragment p' -> prog_syn_ok p = true -> rt_syn_ok p = true ->
+  typecheck p = Accept p' -> in_fragment p' -> prog_syn_ok p = true -> raw_ok p = true ->
   init_linear p' ->
   forall fuel pick, exists C',
     sax_steps (p_funs p') false (sax_init p')
@@ -256,7 +257,7 @@ Qed.
 
 (* programs that come out of the parser: prog_syn_ok is a theorem *)
 Theorem prints_admitted_parsed txt p p' :
-  parse_string txt = POk p -> typecheck p = Accept p' -> in_fragment p' -> rt_syn_ok p = true ->
+  parse_string txt = POk p -> typecheck p = Accept p' -> in_fragment p' -> raw_ok p = true ->
   init_linear p' ->
   forall fuel pick, exists C',
     sax_steps (p_funs p') false (sax_init p')
@@ -268,7 +269,7 @@ Definition c04_premises_text (txt : string) : bool :=
   match parse_string txt with
   | POk p =>
     match typecheck p with
-    | Accept p' => in_fragment_b p' && rt_syn_ok p && init_linear_b p'
+    | Accept p' => in_fragment_b p' && raw_ok p && init_linear_b p'
     | _ => false
     end
   | _ => false
@@ -347,7 +348,7 @@ End RunsMd.
 (* both polarized modes *)
 Theorem prints_admitted_tc_md md p p' :
   is_np md = false ->
-  typecheck p = Accept p' -> in_fragment p' -> prog_syn_ok p = true -> rt_syn_ok p = true ->
+  typecheck p = Accept p' -> in_fragment p' -> prog_syn_ok p = true -> raw_ok p = true ->
   init_linear p' ->
   forall fuel pick, exists C',
     sax_steps (p_funs p') false (sax_init p')
@@ -371,7 +372,7 @@ Qed.
 
 Theorem prints_admitted_parsed_md md txt p p' :
   is_np md = false ->
-  parse_string txt = POk p -> typecheck p = Accept p' -> in_fragment p' -> rt_syn_ok p = true ->
+  parse_string txt = POk p -> typecheck p = Accept p' -> in_fragment p' -> raw_ok p = true ->
   init_linear p' ->
   forall fuel pick, exists C',
     sax_steps (p_funs p') false (sax_init p')
